@@ -35,7 +35,8 @@ fn judge_exact<E: Exact>(st: &mut Stats, rng: &mut Rng, du: usize, dv: usize, rv
     let nz = |rng: &mut Rng| { let x = rv(rng); if x.is_zero_e() { E::from_int(1) } else { x } };
     let mut u: Vec<E> = (0..=du).map(|_| if zeros_inside && rng.chance(0.3) { E::zero() } else { rv(rng) }).collect();
     let mut v: Vec<E> = (0..=dv).map(|_| if zeros_inside && rng.chance(0.3) { E::zero() } else { rv(rng) }).collect();
-    u[du] = nz(rng); v[dv] = nz(rng);
+    if !rng.chance(0.15) { u[du] = nz(rng); } else { u[du] = E::zero(); } // 15%: dividend with a stored leading zero
+    v[dv] = nz(rng);
     // occasionally make the division exact (u = a*v) so that r must vanish
     if rng.chance(0.2) && du >= dv { let a: Vec<E> = (0..=du - dv).map(|_| nz(rng)).collect(); u = vec![E::zero(); du + 1]; for i in 0..a.len() { for j in 0..v.len() { u[i + j] = u[i + j] + a[i] * v[j]; } } }
     let desc = || format!("T={} u={:?} v={:?}", E::NAME, u, v);
@@ -73,9 +74,12 @@ fn judge_f64(st: &mut Stats, rng: &mut Rng, du: usize, dv: usize, kind: u64) {
     let gen = |rng: &mut Rng| -> f64 { match kind { 0 => rng.int(-9, 9) as f64, 1 => rng.sym(), _ => rng.sym() * rng.logpos(1e-3, 1e3) } };
     let mut u: Vec<f64> = (0..=du).map(|_| if rng.chance(0.1) { 0.0 } else { gen(rng) }).collect();
     let mut v: Vec<f64> = (0..=dv).map(|_| if rng.chance(0.1) { 0.0 } else { gen(rng) }).collect();
-    if u[du] == 0.0 { u[du] = 1.5; }
+    // a dividend may carry stored leading zeros (only the divisor's leading coefficient must be non-zero)
+    if u[du] == 0.0 && !rng.chance(0.5) { u[du] = 1.5; }
     // integer class: divisor leading coefficient +-1 or +-2^k so that the exact quotient is representable
     v[dv] = if kind == 0 { *rng.pick(&[1.0, -1.0, 2.0, -0.5]) } else if v[dv] == 0.0 { 0.75 } else { v[dv] };
+    // uniform rescaling of both polynomials by 2^e (exact; ratios unchanged): "for every float input"
+    if rng.chance(0.3) { let (eu, ev) = (rng.int(-80, 80) as i32, rng.int(-80, 80) as i32); for x in u.iter_mut() { *x *= 2f64.powi(eu); } for x in v.iter_mut() { *x *= 2f64.powi(ev); } }
     let desc = || format!("T=f64 kind={} u={:?} v={:?}", ["integer", "general", "graded"][kind as usize], u, v);
     let (pu, pv) = (Polynomial::new(u.clone()), Polynomial::new(v.clone()));
     let budget = 4 * (du + 2);
